@@ -8,5 +8,7 @@ void h_vf_getlap(void) {
   vi->channels = g_chs;
   float **lappcm = malloc(sizeof(float *) * 2);
   lappcm[0] = malloc(sizeof(float) * lapsize); lappcm[1] = g_chs > 1 ? malloc(sizeof(float) * lapsize) : NULL;
+  g_decrows = malloc(sizeof(float *) * 2);
+  g_decrows[0] = malloc(sizeof(float) * DEC_MAXROW); g_decrows[1] = g_chs > 1 ? malloc(sizeof(float) * DEC_MAXROW) : NULL;
   _ov_getlap(vf, vi, &vf->vd, lappcm, lapsize);
 }
